@@ -28,7 +28,8 @@
 (***************************************************************************)
 EXTENDS G1Clauses, Json, TLC, TLCExt
 
-CONSTANTS MaxBlocks,    \* 1..4
+CONSTANTS Isas,         \* subset of {"x64","ia32","arm64"}
+          MaxBlocks,    \* 1..4
           Templates,    \* block templates (terminator kinds)
           Layouts,      \* function layouts
           FnTables,     \* subset of {"present","empty","absent"}
@@ -173,6 +174,7 @@ Refused(M, regs) == ~M.hasfns /\ \E i \in DOMAIN regs : NeedsFunctions(regs[i].s
 \* A site needs [reg, u, off]; SiteReqId orders the requests of one location by
 \* registration id (Listing!EditItem sorts by id).
 SiteReqId(s) == s.reg * 100 + s.u
+MarkerLen(isa) == IF isa = "arm64" THEN 4 ELSE 5
 MarkerPatch(mlen) ==
   [units |-> <<[o |-> 0, n |-> mlen, k |-> "op", tg |-> "", tgb |-> "", by |-> [x \in 1..mlen |-> 0]]>>,
    labels |-> <<>>, sx |-> <<>>, sxs |-> <<>>]
@@ -208,14 +210,16 @@ TemplateUnits(tpl, i, tgt) ==
     [] tpl = "ijmp"  -> << <<"op", 2, 10 * i + 1>>, <<"ijmp">> >>
     [] tpl = "icall" -> << <<"op", 2, 10 * i + 1>>, <<"icall">> >>
     [] tpl = "d3"    -> << <<"d", 3, 10 * i + 1>> >>
-IsData(tpl) == tpl = "d3"
+    [] tpl = "d4"    -> << <<"d", 4, 10 * i + 1>> >>
+IsData(tpl) == tpl \in {"d3", "d4"}
 UsesTarget(tpl) == tpl \in {"jmp", "jmp1", "jcc", "call"}
 LastKind(tpl) ==
-  CASE tpl \in {"o1", "o23"} -> "op" [] tpl \in {"jmp", "jmp1"} -> "jmp" [] tpl = "d3" -> "d" [] OTHER -> tpl
+  CASE tpl \in {"o1", "o23"} -> "op" [] tpl \in {"jmp", "jmp1"} -> "jmp" [] tpl \in {"d3", "d4"} -> "d" [] OTHER -> tpl
 LastKindOf(tpl) == IF tpl = "ret1" THEN "ret" ELSE LastKind(tpl)
 CanFallthrough(k) == k \in {"op", "jcc", "call", "icall"}
 
-UnitSize(un) ==
+UnitSize(isa, un) ==
+  IF isa = "arm64" THEN (IF un[1] = "d" THEN un[2] ELSE 4) ELSE
   CASE un[1] = "op" -> un[2]
     [] un[1] \in {"jmp", "call"} -> 5
     [] un[1] = "jcc" -> 6
@@ -260,9 +264,9 @@ NameChoices(l) ==
                     x[1] # x[2] /\ (BothOrders \/ NameIdx(x[1]) < NameIdx(x[2]))}
 ParamsNb(nb) ==
   UNION {UNION {
-      {[nb |-> nb, tpl |-> tpl, tgt |-> tg, layout |-> lf[1], fnt |-> lf[2],
+      {[isa |-> isa, nb |-> nb, tpl |-> tpl, tgt |-> tg, layout |-> lf[1], fnt |-> lf[2],
         n1 |-> nn[1], n2 |-> nn[2], ents |-> nn[3], ep |-> ep, cfg |-> cm] :
-          tg \in TgtValid(nb, tpl), ep \in EpValid(nb, tpl), nn \in NameChoices(lf[1]), cm \in CfgModes}
+          isa \in Isas, tg \in TgtValid(nb, tpl), ep \in EpValid(nb, tpl), nn \in NameChoices(lf[1]), cm \in CfgModes}
       : lf \in LayoutFnt(nb)}
     : tpl \in [1..nb -> Templates]}
 ShapeParams == UNION {ParamsNb(nb) : nb \in 1..MaxBlocks}
@@ -291,7 +295,9 @@ RenderEdge(e) ==
 
 MkShape(p) ==
   LET es == EdgesOf(p) IN
-  [sections |-> <<[name |-> ".text",
+  [isa |-> p.isa,
+   fmt |-> IF p.isa = "ia32" THEN "pe" ELSE "elf",
+   sections |-> <<[name |-> ".text",
                    blocks |-> [i \in 1..p.nb |->
                       [kind |-> IF IsData(p.tpl[i]) THEN "data" ELSE "code",
                        units |-> TemplateUnits(p.tpl[i], i, BName(p.tgt)),
@@ -305,27 +311,27 @@ MkShape(p) ==
    entry_point |-> IF p.ep = 0 THEN <<>> ELSE <<0, p.ep - 1>>]
 
 \* the pre-state of a shape in the projection's format
-UnitOffsets(units) ==
-  LET f[i \in 0..Len(units)] == IF i = 0 THEN 0 ELSE f[i - 1] + UnitSize(units[i])
+UnitOffsets(isa, units) ==
+  LET f[i \in 0..Len(units)] == IF i = 0 THEN 0 ELSE f[i - 1] + UnitSize(isa, units[i])
   IN  f
-ExpandUnits(units) ==
-  LET offs == UnitOffsets(units)
+ExpandUnits(isa, units) ==
+  LET offs == UnitOffsets(isa, units)
       one(j) == LET un == units[j]
                 IN  IF un[1] = "d"
-                    THEN [x \in 1..UnitSize(un) |->
+                    THEN [x \in 1..UnitSize(isa, un) |->
                             [o |-> offs[j - 1] + x - 1, n |-> 1, k |-> "data", tg |-> "", tgb |-> "", by |-> <<0>>]]
-                    ELSE <<[o |-> offs[j - 1], n |-> UnitSize(un), k |-> un[1], tg |-> "", tgb |-> "",
-                            by |-> [x \in 1..UnitSize(un) |-> 0]]>>
+                    ELSE <<[o |-> offs[j - 1], n |-> UnitSize(isa, un), k |-> un[1], tg |-> "", tgb |-> "",
+                            by |-> [x \in 1..UnitSize(isa, un) |-> 0]]>>
   IN  FlattenSeq([j \in 1..Len(units) |-> one(j)])
 
 AbsState(p) ==
   LET sh == MkShape(p)
       bs == sh.sections[1].blocks
-      sizes == [i \in 1..Len(bs) |-> UnitOffsets(bs[i].units)[Len(bs[i].units)]]
+      sizes == [i \in 1..Len(bs) |-> UnitOffsets(p.isa, bs[i].units)[Len(bs[i].units)]]
       pos == LET f[i \in 0..Len(bs)] == IF i = 0 THEN 0 ELSE f[i - 1] + sizes[i] IN f
       hasf(i) == bs[i].fn # ""
       blk(i) == [u |-> i, k |-> bs[i].kind, p |-> pos[i - 1], n |-> sizes[i],
-                 units |-> ExpandUnits(bs[i].units),
+                 units |-> ExpandUnits(p.isa, bs[i].units),
                  ss |-> bs[i].syms, es |-> <<>>,
                  fn |-> IF hasf(i) THEN <<bs[i].fn>> ELSE <<>>,
                  ent |-> IF hasf(i) /\ bs[i].entry THEN <<bs[i].fn>> ELSE <<>>,
@@ -470,7 +476,7 @@ OrderIsRegistrationOrder(M, regs, ap) ==
                IN  [k \in 1..Len(here) |-> here[k].reg]
       \* ... and in the edited listing (evaluated when a location is shared)
       /\ shared =>
-            LET exp == ExpectedPositions(AbsState(sp), sites, 5)
+            LET exp == ExpectedPositions(AbsState(sp), sites, MarkerLen(sp.isa))
                 posOf(s) == (CHOOSE e \in exp : e.id = SiteReqId(s)).p
             IN  /\ Cardinality(exp) = Cardinality(sites)
                 /\ \A s1, s2 \in sites :
